@@ -52,6 +52,8 @@ func (v sval) lit() string {
 		return `{"a": 1}`
 	case "void":
 		return "some.attr"
+	case "unconv":
+		return "[1, 1e308 * 10.0]"
 	}
 	return "nil"
 }
